@@ -116,6 +116,7 @@ func c07Pairs(c *Ctx, kind string, budget int) {
 	for _, x := range all {
 		c07Pair(c, kind, pc, b, k, k0, x.pre, ops[x.a], ops[x.b], x.parkSkip)
 	}
+	c07PairsMp(c, kind, pc)
 }
 
 func c07Pair(c *Ctx, kind string, pc *parkCtl, b, k, k0, pre string, A, B pairOp, parkSkip int) {
@@ -148,15 +149,60 @@ func c07Pair(c *Ctx, kind string, pc *parkCtl, b, k, k0, pre string, A, B pairOp
 			return
 		}
 	}
+	reads := func() []pairRead {
+		var reads []pairRead
+		l, o := r.HeadBucket(b)
+		reads = append(reads, pairRead{l, o})
+		l, o = r.Get(b, k)
+		reads = append(reads, pairRead{l, o})
+		l, o = r.Get(b, k0)
+		reads = append(reads, pairRead{l, o})
+		ll, lo := r.List(ListReq{Bucket: b, ClampedMaxKeys: 1000})
+		reads = append(reads, pairRead{ll, lo.Obs})
+		return reads
+	}
+	// known finding D34: a copy is two critical sections (read the source; write the destination):
+	// is what was observed exactly "source read, then B, then the write"?
+	var split func(ra, rb pairRead, reads []pairRead, norm func(string, string) bool) string
+	if A.name == "copy" && (pre == "k0" || pre == "k+k0") {
+		split = func(ra, rb pairRead, reads []pairRead, norm func(string, string) bool) string {
+			if !strings.HasPrefix(ra.obs, "copied ") {
+				return ""
+			}
+			r.c.tell("rollback")
+			ok := true
+			m, _, _ := c.D.Ask(rb.line)
+			ok = ok && norm(rb.obs, m)
+			m, _, _ = c.D.Ask(fmt.Sprintf("put %s %s - %s", hx(b), hx(k), hx("source-body")))
+			ok = ok && strings.HasPrefix(m, "stored ") && len(strings.Fields(m)) > 1 && len(strings.Fields(ra.obs)) > 1 && strings.Fields(m)[1] == strings.Fields(ra.obs)[1]
+			for _, x := range reads {
+				m, _, _ := c.D.Ask(x.line)
+				ok = ok && norm(x.obs, m)
+			}
+			if ok {
+				return "c07:pair:copy-not-atomic"
+			}
+			return ""
+		}
+	}
+	runPair(c, kind, pc, r, pre, A, B, parkSkip, reads, split)
+}
+
+type pairRead struct{ line, obs string }
+
+// runPair: the model state has been set up through r (and is snapshotted here); A is started and
+// parked at its (parkSkip+1)-th park point, B is started, A released; the answers and `reads` must
+// equal those of one sequential order in the model.
+func runPair(c *Ctx, kind string, pc *parkCtl, r *Runner, pre string, A, B pairOp, parkSkip int,
+	readsF func() []pairRead, split func(ra, rb pairRead, reads []pairRead, norm func(string, string) bool) string) {
 	r.tell("snapshot")
 	// --- the real code: A parked, B started, A released
-	type res struct{ line, obs string }
-	doneA, doneB := make(chan res, 1), make(chan res, 1)
+	doneA, doneB := make(chan pairRead, 1), make(chan pairRead, 1)
 	pc.mu.Lock()
 	pc.armed, pc.skip = true, parkSkip
 	pc.mu.Unlock()
-	go func() { l, o := A.run(r); doneA <- res{l, o} }()
-	var ra, rb res
+	go func() { l, o := A.run(r); doneA <- pairRead{l, o} }()
+	var ra, rb pairRead
 	parkedAt := ""
 	aDone := false
 	select {
@@ -175,7 +221,7 @@ func c07Pair(c *Ctx, kind string, pc *parkCtl, b, k, k0, pre string, A, B pairOp
 		c.hist("pair:no-park")
 		return
 	}
-	go func() { l, o := B.run(r); doneB <- res{l, o} }()
+	go func() { l, o := B.run(r); doneB <- pairRead{l, o} }()
 	bFirst := false
 	select {
 	case rb = <-doneB:
@@ -201,17 +247,7 @@ func c07Pair(c *Ctx, kind string, pc *parkCtl, b, k, k0, pre string, A, B pairOp
 	} else {
 		c.hist("pair:B-waited")
 	}
-	// state read back
-	type rd struct{ line, obs string }
-	var reads []rd
-	l, o := r.HeadBucket(b)
-	reads = append(reads, rd{l, o})
-	l, o = r.Get(b, k)
-	reads = append(reads, rd{l, o})
-	l, o = r.Get(b, k0)
-	reads = append(reads, rd{l, o})
-	ll, lo := r.List(ListReq{Bucket: b, ClampedMaxKeys: 1000})
-	reads = append(reads, rd{ll, lo.Obs})
+	reads := readsF()
 	// --- the model: both sequential orders
 	c.R.Evaluations++
 	// no request of a pair sends metadata headers; what an overwrite carries over from the
@@ -222,7 +258,7 @@ func c07Pair(c *Ctx, kind string, pc *parkCtl, b, k, k0, pre string, A, B pairOp
 	}
 	var tried []string
 	match := false
-	for _, order := range [][2]res{{ra, rb}, {rb, ra}} {
+	for _, order := range [][2]pairRead{{ra, rb}, {rb, ra}} {
 		r.c.tell("rollback")
 		ok := true
 		var trace []string
@@ -255,21 +291,9 @@ func c07Pair(c *Ctx, kind string, pc *parkCtl, b, k, k0, pre string, A, B pairOp
 	c.nontrivial(fmt.Sprintf("pair|%s|%s|%s|%s|%s", kind, pre, A.name, parkedAt, B.name))
 	c.hist("pair:parked-at:" + parkedAt)
 	finger := "c07:pair:not-linearizable:" + A.name + "/" + B.name
-	if !match && A.name == "copy" && (pre == "k0" || pre == "k+k0") && strings.HasPrefix(ra.obs, "copied ") {
-		// known finding D34: a copy is two critical sections (read the source; write the
-		// destination).  Is what was observed exactly "source read, then B, then the write"?
-		r.c.tell("rollback")
-		ok := true
-		m, _, _ := c.D.Ask(rb.line)
-		ok = ok && norm(rb.obs, m)
-		m, _, _ = c.D.Ask(fmt.Sprintf("put %s %s - %s", hx(b), hx(k), hx("source-body")))
-		ok = ok && strings.HasPrefix(m, "stored ") && len(strings.Fields(m)) > 1 && len(strings.Fields(ra.obs)) > 1 && strings.Fields(m)[1] == strings.Fields(ra.obs)[1]
-		for _, x := range reads {
-			m, _, _ := c.D.Ask(x.line)
-			ok = ok && norm(x.obs, m)
-		}
-		if ok {
-			finger = "c07:pair:copy-not-atomic"
+	if !match && split != nil {
+		if f := split(ra, rb, reads, norm); f != "" {
+			finger = f
 		}
 	}
 	if !match {
@@ -284,6 +308,77 @@ func c07Pair(c *Ctx, kind string, pc *parkCtl, b, k, k0, pre string, A, B pairOp
 			Model: "", Finger: finger})
 	}
 	r.c.tell("rollback")
+}
+
+// c07PairsMp: the same for multipart requests on ONE pending upload (two parts held): complete,
+// a second complete, abort, a part re-upload, ListParts and a GET of the key, A parked at the
+// gates inside the part upload / inside the complete's PutObject.
+func c07PairsMp(c *Ctx, kind string, pc *parkCtl) {
+	b := "bk1"
+	if strings.HasPrefix(kind, "fsS") {
+		b = impl.SingleBucketName
+	}
+	key := "mp/obj"
+	e := func(n int) string { return etagOf([]byte(fmt.Sprintf("part-body-%d", n))) }
+	names := []string{"complete", "complete12", "abort", "part1", "listparts", "get"}
+	mk := func(name string, id *string) pairOp {
+		switch name {
+		case "complete":
+			return pairOp{name, func(r *Runner) (string, string) { return r.MpComplete(b, key, *id, []cpart{{1, e(1)}, {2, e(2)}}) }}
+		case "complete12":
+			return pairOp{name, func(r *Runner) (string, string) { return r.MpComplete(b, key, *id, []cpart{{1, e(1)}}) }}
+		case "abort":
+			return pairOp{name, func(r *Runner) (string, string) { return r.MpAbort(b, key, *id) }}
+		case "part1":
+			return pairOp{name, func(r *Runner) (string, string) { return r.MpPart(b, key, *id, "1", []byte("part-body-1"), "", nil) }}
+		case "listparts":
+			return pairOp{name, func(r *Runner) (string, string) {
+				l, po := r.MpParts(b, key, *id, "", "", 0, 1000)
+				return l, po.Obs
+			}}
+		}
+		return pairOp{name, func(r *Runner) (string, string) { return r.Get(b, key) }}
+	}
+	for _, an := range names[:4] {
+		for _, bn := range names {
+			for skip := 0; skip < 3; skip++ {
+				inst, err := impl.New(kind, c.Tmp)
+				if err != nil {
+					c.mismatch(Mismatch{Kind: "model", Backend: kind, Finger: "setup", Impl: err.Error()})
+					return
+				}
+				r := newRunner(c, inst, false, false, false)
+				ok := true
+				setup := func(l, o string) {
+					before := c.NMism
+					r.judgeProj(l, o, "c07:pair:setup", ident, nil)
+					ok = ok && c.NMism == before
+				}
+				if inst.IsSingle() {
+					r.tell("mkbucket " + hx(b))
+				} else {
+					setup(r.MkBucket(b))
+				}
+				l, o, id := r.MpInit(b, key, nil)
+				setup(l, o)
+				for n := 1; n <= 2 && ok; n++ {
+					setup(r.MpPart(b, key, id, fmt.Sprint(n), []byte(fmt.Sprintf("part-body-%d", n)), "", nil))
+				}
+				if ok && id != "" {
+					reads := func() []pairRead {
+						var reads []pairRead
+						l, o := r.Get(b, key)
+						reads = append(reads, pairRead{l, o})
+						lp, po := r.MpParts(b, key, id, "", "", 0, 1000)
+						reads = append(reads, pairRead{lp, po.Obs})
+						return reads
+					}
+					runPair(c, kind, pc, r, "upload-with-2-parts", mk(an, &id), mk(bn, &id), skip, reads, nil)
+				}
+				inst.Close()
+			}
+		}
+	}
 }
 
 func b2i(b bool) int {
